@@ -21,12 +21,22 @@ import jsonschema
 from jsonschema import Draft6Validator
 docs = json.load(open(sys.argv[1]))
 out = []
+def strip(j):
+    if isinstance(j, dict):
+        return {k: strip(v) for k, v in j.items() if not (k == "items" and v == [])}
+    if isinstance(j, list):
+        return [strip(v) for v in j]
+    return j
 for d in docs:
     try:
         Draft6Validator.check_schema(d)
         out.append(None)
     except Exception as exc:
-        out.append(str(exc)[:300])
+        try:
+            Draft6Validator.check_schema(strip(d))
+            out.append("EMPTY-ITEMS-ONLY " + str(exc)[:300])
+        except Exception as exc2:
+            out.append(str(exc2)[:300])
 json.dump(out, open(sys.argv[2], "w"))
 '''
 
@@ -89,6 +99,15 @@ TEMPLATES = [
         "y": {"e": {"k": "Integer", "kw": {}}, "required": True, "source": None}}, "additionalProperties": False}}},
     {"classes": {}, "order": [], "root": {"k": "Element", "kw": {"required": ["x"], "properties": {}}}},
 ]
+TEMPLATES.append(
+    # structurally identical classes under different names, both referenced
+    {"classes": {"Billing": {"k": "Obj", "name": "Billing", "base": None, "doc": None, "kw": {}, "props": {
+        "street": {"e": {"k": "String", "kw": {}}, "required": True, "source": None}}},
+        "Shipping": {"k": "Obj", "name": "Shipping", "base": None, "doc": None, "kw": {}, "props": {
+            "street": {"e": {"k": "String", "kw": {}}, "required": True, "source": None}}}},
+     "order": ["Billing", "Shipping"], "root": {"k": "Element", "kw": {"properties": {
+         "a": {"e": {"k": "Ref", "name": "Billing"}, "required": False, "source": None},
+         "b": {"e": {"k": "Ref", "name": "Shipping"}, "required": False, "source": None}}}}})
 TEMPLATE_VALUES = [[{"class": "c", "n": 1, "extra": 0}], [{"class": "c", "extra": 0, "p 1": {"class": "d", "extra": 1}}, {"class": "c", "extra": 1}, {"class": "e", "extra": 2}],
                    [{"class_": "c", "extra": 0}], {"x": 1, "class": "c", "y": 2}, {"class": "c", "y": 2}, {"x": 1, "y": 2}, {"x": 1, "class_": "c", "y": 2},
                    {"x": 1}, {}, [{"class": "c", "extra": 0, "zzz": 1}]]
@@ -104,7 +123,15 @@ def run(tier, seed, replay=None):
     docs = [json.load(open(replay))["doc"]] if replay else list(TEMPLATES)
     if not replay:
         for _ in range(140 if tier == "quick" else 2500):
-            docs.append(dslgen.gen_doc(rng, dslgen.Cfg(max_depth=rng.choice([2, 3]), explicit_required=0.4)))
+            d = dslgen.gen_doc(rng, dslgen.Cfg(max_depth=rng.choice([2, 3]), explicit_required=0.4))
+            if d["order"] and rng.random() < 0.3:        # a twin: same shape, another name, referenced next to the original
+                src = rng.choice(d["order"])
+                twin = copy.deepcopy(d["classes"][src])
+                twin["name"] = src + "Twin"
+                d["classes"][src + "Twin"] = twin
+                d["order"].append(src + "Twin")
+                d["root"] = {"k": "Array", "items": [d["root"], {"k": "Ref", "name": src}, {"k": "Ref", "name": src + "Twin"}], "kw": {}}
+            docs.append(d)
     ser_cases, ser_meta, doc_cases, doc_meta, all_docs = [], [], [], [], []
     for di, doc in enumerate(docs):
         try:
@@ -132,6 +159,29 @@ def run(tier, seed, replay=None):
             res.violation(dict(payload, kind="oracle", what="serialize_json raised %s: %s" % (type(exc).__name__, str(exc)[:120])))
             continue
         stats["documents"] += 1
+        # 0. a history of calls on the SAME live tree: each result is what a fresh tree gives for those arguments
+        if not replay or True:
+            others = [e for e in elems[1:] if not isinstance(e, ObjectMeta)][:2]
+            alt = {"alt%d" % i: e for i, e in enumerate(others)}
+            hist_bad = None
+            for args in ([alt] if alt else []) + [None, defs]:
+                try:
+                    again = serialize_json(*roots, definitions=args) if args else serialize_json(*roots)
+                except BaseException as exc:  # noqa
+                    hist_bad = "a later serialize_json call on the same tree raised %s" % type(exc).__name__
+                    break
+                fresh_root, fresh_classes = dslgen.build(doc)
+                f_elems, _ = walk(fresh_root)
+                idx = {id(e): i for i, e in enumerate(elems)}
+                f_args = {k: f_elems[idx[id(e)]] for k, e in args.items()} if args else None
+                f_roots = [fresh_root] + [fresh_classes[r.__name__] for r in roots[1:]]
+                fresh = serialize_json(*f_roots, definitions=f_args) if f_args else serialize_json(*f_roots)
+                if json.dumps(again, sort_keys=True, default=repr) != json.dumps(fresh, sort_keys=True, default=repr):
+                    hist_bad = "serializing the same tree again with definitions=%s gives a document that differs from a fresh tree's" % (sorted(args) if args else None)
+                    break
+            if hist_bad:
+                res.violation(dict(payload, kind="oracle", what=hist_bad))
+                continue
         # 1. JSON-serialisable
         try:
             text = json.dumps(J)
@@ -201,7 +251,7 @@ def run(tier, seed, replay=None):
             for J, o in zip(all_docs, outs):
                 if o is not None:
                     res.violation({"property": "C03", "kind": "oracle", "document": J,
-                                   "finding": "C03-K21" if ('"items": []' in json.dumps(J) and "[] is not valid" in o) else None,
+                                   "finding": "C03-K21" if o.startswith("EMPTY-ITEMS-ONLY") else None,
                                    "what": "the document is not a valid Draft-6 schema: %s" % o})
         else:
             res.notes.append("metaschema check skipped: %s" % p.stderr[-300:])
